@@ -361,6 +361,17 @@ pub trait Fl: 'static + Sized {
         cfg: &Cfg,
         cb: &mut dyn FnMut(&Self::Edge) -> bool,
     ) -> Option<Self::Path>;
+    /// Build the search object once and run two terminal calls on it (first
+    /// `cfg.res`, then `second`); `between` is called in between. Only for the
+    /// terminals that leave the object usable: search_path for the searches,
+    /// search_nodes / search_edges for the orderings.
+    fn search_reuse(
+        root: &Self::Node,
+        cfg: &Cfg,
+        second: ResK,
+        between: &mut dyn FnMut(),
+        cb: &mut dyn FnMut(&Self::Edge) -> bool,
+    ) -> (SRes, SRes);
     fn path_obs(p: &Self::Path) -> PathObs;
     fn path_nodes(p: &Self::Path) -> Vec<Self::Node>;
 
@@ -686,6 +697,58 @@ macro_rules! search_impl {
                 Kind::PfsMax => finish_search!(root.pfs().max()),
                 Kind::Pre => finish_order!(root.$($pre)*),
                 Kind::Post => finish_order!(root.$($post)*),
+            }
+        }
+
+        fn search_reuse(
+            root: &Self::Node,
+            cfg: &Cfg,
+            second: ResK,
+            between: &mut dyn FnMut(),
+            cb: &mut dyn FnMut(&Self::Edge) -> bool,
+        ) -> (SRes, SRes) {
+            assert!(cfg.valid(Self::DIRECTED), "harness: invalid cfg {:?}", cfg);
+            let cbc = RefCell::new(cb);
+            let mut fe = |e: &Self::Edge| {
+                (cbc.borrow_mut())(e);
+            };
+            let mut fi = |e: &Self::Edge| (cbc.borrow_mut())(e);
+            let t: K = cfg.target.unwrap_or(0);
+            let kv = |n: &Self::Node| (*n.key(), n.value().p);
+            let a3 = |e: &Self::Edge| (*e.0.key(), *e.1.key(), e.2);
+            macro_rules! twice_search {
+                ($builder:expr) => {
+                    with_methods!($builder, cfg, t, fe, fi, $tr, yes, |b| {
+                        assert!(cfg.res == ResK::Path && second == ResK::Path, "harness: reuse of a search needs search_path twice");
+                        let r1 = b.search_path().map(|p| make_pathbox!(p));
+                        between();
+                        let r2 = b.search_path().map(|p| make_pathbox!(p));
+                        (SRes::Path(r1.as_ref().map(Self::path_obs)), SRes::Path(r2.as_ref().map(Self::path_obs)))
+                    })
+                };
+            }
+            macro_rules! twice_order {
+                ($builder:expr) => {
+                    with_methods!($builder, cfg, t, fe, fi, $tr, no, |b| {
+                        let mut one = |res: ResK| match res {
+                            ResK::Nodes => SRes::Nodes(b.search_nodes().iter().map(kv).collect()),
+                            ResK::Edges => SRes::Edges(b.search_edges().iter().map(a3).collect()),
+                            _ => panic!("harness: orderings offer search_nodes / search_edges"),
+                        };
+                        let r1 = one(cfg.res);
+                        between();
+                        let r2 = one(second);
+                        (r1, r2)
+                    })
+                };
+            }
+            match cfg.kind {
+                Kind::Bfs => twice_search!(root.bfs()),
+                Kind::Dfs => twice_search!(root.dfs()),
+                Kind::PfsMin => twice_search!(root.pfs().min()),
+                Kind::PfsMax => twice_search!(root.pfs().max()),
+                Kind::Pre => twice_order!(root.$($pre)*),
+                Kind::Post => twice_order!(root.$($post)*),
             }
         }
 
